@@ -81,8 +81,8 @@ def op_strategy(draw, style):
     elif kind == "edit":
         op.update(offset=draw(st.one_of(lat, lat.map(lambda t: -t))), mode=draw(st.sampled_from(["silence", "warning", "error"])))
     elif kind == "insert_entry":
-        op.update(a=draw(lat), b=draw(lat), label=draw(st.sampled_from(["n", " n ", "", "m\n", "x"])),
-                  mode=draw(st.sampled_from(["error", "replace", "merge", "merge", "replace", "bogus"])),
+        op.update(a=draw(lat), b=draw(st.one_of(lat, lat, st.sampled_from([20.0, 40.0]))), label=draw(st.sampled_from(["n", " n ", "", "m\n", "x"])),
+                  mode=draw(st.sampled_from(["error", "error", "error", "replace", "merge", "merge", "replace", "bogus"])),
                   report=draw(st.sampled_from(["silence", "warning", "silence", "warning", "bogus"])),
                   form=draw(st.sampled_from(["obj", "tuple", "list"])))
     elif kind == "delete_entry":
